@@ -3,6 +3,11 @@
 //!     SymbolFile::from_bytes + walk_frame with the 32-bit mock walker
 //!  B|ctxregs|valid|stackbase|stackhex|rec|rec|...
 //!     one x86 walk_stack step through the real CfiStackWalker (context frame, no grand-callee)
+//!  F|below|ctxregs|valid|stackbase|stackhex|rec|rec|...
+//!     one x86 walk_stack step resumed from a frame LIST: `below` = "." (the callee is the context frame) or the
+//!     comma-separated StackFrame::parameter_size of the frames under the callee, innermost first ("-" = None);
+//!     the grand-callee and its parameter size reach STACK WIN evaluation through the real
+//!     walk_stack -> x86::get_caller_frame -> CfiStackWalker::from_ctx_and_args
 //!  rec = "W ty addr size prolog epilog params saved locals maxstack hasprog rest..."  (decimal numbers,
 //!        ty and hasprog single characters; printed in hex as a STACK WIN line)
 //!      | "C addr size rules..."   (a STACK CFI INIT line)
@@ -68,6 +73,19 @@ fn run(line: &str) -> String {
                 text.push_str(&rec_text(r));
             }
             real_walk("x86", &regs, f[2], f[3].parse().expect("stackbase"), &unhex(f[4]), &text)
+        }
+        "F" => {
+            let below: Vec<Option<u32>> = if f[1] == "." {
+                vec![]
+            } else {
+                f[1].split(',').map(|x| if x == "-" { None } else { Some(x.parse::<u32>().expect("psize")) }).collect()
+            };
+            let regs = parse_regs(f[2]);
+            let mut text = String::new();
+            for r in &f[6..] {
+                text.push_str(&rec_text(r));
+            }
+            real_walk_from(&below, &regs, f[3], f[4].parse().expect("stackbase"), &unhex(f[5]), &text)
         }
         _ => panic!("bad kind"),
     }
